@@ -140,6 +140,16 @@ def ob_content_gates(run, oid):
             o.check(any(a[0] == "lt" and a[2] is True and new_parent_slot(a[1][0]) and any(K.mentions_field(x, "slot", "BlockData") for x in a[1][1:]) for a in atoms),
                     "try_reconstruct_block|parent-switch|slot-earlier", "the NEW parent is in a strictly earlier slot than the block (slot(new parent) < block slot on the path of the switch)", spx, det)
             o.check(any(a[0] == "bool" and a[2] is False and K.mentions_call(a[1][0], "is_first") for a in atoms), "try_reconstruct_block|parent-switch|not-first-slice", "only in a slice after the first", spx, det)
+        # every slice is decoded: inside the loop nothing but the completeness / parent gates stands before the decode (a shortcut for
+        # 'empty' or 'uninteresting' slices also skips the parent switch and the malformed-content checks they may carry)
+        for dc in [c for c in b.calls() if "deserialize" in c.name]:
+            rec = [lambda a: a[0] == "is_some" and (K.is_field(a[1][0], "completed", "BlockData") or K.is_field(a[1][0], "last_slice", "BlockData")),
+                   lambda a: a[0] == "eq" and any(K.mentions_field(x, "slices", "BlockData") for x in a[1]) and any(K.mentions_field(x, "last_slice", "BlockData") for x in a[1]),
+                   lambda a: a[0] == "lt" and any(K.mentions_field(x, "slot", "BlockData") for x in a[1]),
+                   lambda a: a[0] in ("is_some", "variant", "eq", "bool") and any(K.mentions_field(x, "parent") or K.mentions_call(x, "is_first") for x in a[1] if isinstance(x, tuple)),
+                   lambda a: a[0] == "bool" and isinstance(a[1][0], tuple) and a[1][0][0] == "local"]
+            extra = D.extra_guards(prog, b, dc.bb, rec)
+            o.check(not extra, "try_reconstruct_block|decode|every-slice", "every slice's data is decoded (no shortcut skips a slice)", dc.span, {"extra": G.atoms_show(extra)})
         # decode gate: transactions appended only from Ok of deserialize_exact
         app = [c for c in b.calls() if c.name.endswith("Vec::append")]
         for c in app:
